@@ -29,9 +29,10 @@ def idle (w : World) : Prop :=
 instance (w : World) : Decidable (idle w) := by unfold idle; exact inferInstance
 
 /-- a freshly built object with the given values, watchers and Parameter attributes -/
-def fresh (vals : List Int) (regs : List Watcher) (slotVals : List ((Nat × Nat) × Int)) (ncalls : Nat) : World :=
+def fresh (vals : List Int) (regs : List Watcher) (slotVals : List ((Nat × Nat) × Int))
+    (slotKeys : List (Nat × Nat)) (ncalls : Nat) : World :=
   { vals := vals, regs := regs, batch := false, trigger := false, events := [], queued := [], setMode := [],
-    slotVals := slotVals, ncalls := ncalls }
+    slotVals := slotVals, slotKeys := slotKeys, ncalls := ncalls }
 
 /-- **C05 (flags).**  Whatever a call does and however it ends — normally, with a rejected value,
 with an exception from a callback or a context body at any depth — the batching flag and the
@@ -66,7 +67,7 @@ theorem idle_in_idle_out_program (c : Cfg) (f : Nat) (l : List Stmt) (w : World)
 
 /-- **C05 (behaves like a fresh twin).**  An idle dispatcher has no hidden state: it *is* the
 freshly built object with the same values and watchers, so every later call behaves identically. -/
-theorem idle_is_fresh (w : World) (hi : idle w) : w = fresh w.vals w.regs w.slotVals w.ncalls := by
+theorem idle_is_fresh (w : World) (hi : idle w) : w = fresh w.vals w.regs w.slotVals w.slotKeys w.ncalls := by
   obtain ⟨hb, ht, he, hq, hm⟩ := hi
   cases w
   simp_all [fresh]
@@ -74,7 +75,7 @@ theorem idle_is_fresh (w : World) (hi : idle w) : w = fresh w.vals w.regs w.slot
 theorem behaves_like_fresh_twin (c : Cfg) (f g : Nat) (s : Stmt) (next : Call) (w : World) (hi : idle w)
     (h : (run c f (.stmt s) w).1 ≠ .oof) :
     let w' := (run c f (.stmt s) w).2.1
-    run c g next w' = run c g next (fresh w'.vals w'.regs w'.slotVals w'.ncalls) := by
+    run c g next w' = run c g next (fresh w'.vals w'.regs w'.slotVals w'.slotKeys w'.ncalls) := by
   intro w'
   have := idle_is_fresh w' (idle_in_idle_out c f s w hi h)
   rw [← this]
